@@ -68,6 +68,11 @@ def run(tier, seed):
         for _ in range(3000 if tier == "quick" else 1000000):
             r = rng.choice(regs)
             plans.append({"entry": r["entry"], "layer": r["layer"], "faults": [{"op": "set8", "off": rng.randrange(r["full_len"]), "v": rng.randrange(256)} for _ in range(rng.randint(1, 6))]})
+        # absurd lengths in the length field of every element of both TSRequests (every depth), at the parser entries
+        for e in ("ts_challenge", "ts_validate"):
+            for idx in range(0, 12):
+                for lf in ([0x88] + [0xff] * 8, [0x88, 0x7f] + [0xff] * 7, [0x84, 0xff, 0xff, 0xff, 0xff], [0x84, 0x10, 0, 0, 0], [0x80], [0x82, 0xff, 0xff], [0x81, 0]):
+                    plans.append({"entry": e, "layer": "all", "faults": [{"op": "derlen", "idx": idx, "bytes": lf}]})
         plans += variants()
         shorts = [[]] + [[a] for a in range(256)] + ([[a, b] for a in range(256) for b in range(256)] if tier == "thorough" else [[rng.randrange(256), rng.randrange(256)] for _ in range(2000)])
         for s in shorts:
@@ -128,6 +133,17 @@ def run(tier, seed):
                     if v < 256 ** k:
                         out.append([0x80 + k] + [(v >> (8 * (k - 1 - i))) & 255 for i in range(k)])
             return out + [[0x80], [0x88] + [0xff] * 8, [0xff]]
+        # ... and the same absurd lengths planted in the length field of EVERY element of the structure, at every depth
+        for target in ("challenge_faults", "final"):
+            for idx in range(1, 12):
+                for lf in ([0x88] + [0xff] * 8, [0x84, 0xff, 0xff, 0xff, 0xff], [0x84, 0x10, 0, 0, 0], [0x80], [0x82, 0xff, 0xff]):
+                    srv = dict(base_srv)
+                    f = [{"op": "derlen", "idx": idx, "bytes": lf}]
+                    if target == "final":
+                        srv["final"] = {"kind": "faulted", "faults": f}
+                    else:
+                        srv["challenge_faults"] = f
+                    cplans.append({"id": "nest-%s-%d-%d" % (target[:5], idx, len(lf)), "cfg": base_cfg, "srv": srv})
         for target in ("challenge_faults", "final"):
             for j, lf in enumerate(lenforms(300)):          # the honest requests are 0x30 0x82 hi lo ... (between 256 and 65535 bytes)
                 srv = dict(base_srv)
